@@ -53,8 +53,7 @@ theorem noCrash_compareDevice (load gc : Prog) :
 theorem noChange_nil (b : Backend) : NoChange b ([] : List Out) := by
   intro o h; cases h
 
-theorem notPanicked_init : notPanicked ({} : St) := by
-  intro m; simp
+theorem notPanicked_init : notPanicked ({} : St) := ⟨fun m => by simp, by simp⟩
 
 theorem isRunning_false_of_ne {s : Status} : s.isRunning = false ↔ s ≠ .running := by
   cases s <;> simp [Status.isRunning]
@@ -67,7 +66,8 @@ theorem exit_one (st : St) (hn : st.status.isRunning = false) (hp : notPanicked 
   | running => rw [h] at hn; simp [Status.isRunning] at hn
   | aborted m => simp
   | failed m => simp
-  | panicked m => exact absurd h (hp m)
+  | panicked m => exact absurd h (hp.1 m)
+  | unfinished => exact absurd h hp.2
 
 theorem closeStep_status (o : Option Out) (st : St) : (closeStep o st).status = st.status := by
   unfold closeStep
@@ -118,7 +118,7 @@ theorem approveWith_blocked (env : Env) (b : Backend) (load gc ap : Prog) (c : B
       simp only [exec, hr, hc, Bool.and_self, if_true]
       cases hel : s.errU with
       | nil => exact absurd hel he
-      | cons m l => exact ⟨rfl, rfl, fun m' => by simp⟩
+      | cons m l => exact ⟨rfl, rfl, fun m' => by simp, by simp⟩
   have hf : exec env (approveWith load gc c ap) {} = g := by
     rw [approveWith_exec]; exact exec_nr env _ g hg.1
   have hfs : f.status = g.status := by
@@ -129,16 +129,16 @@ theorem approveWith_blocked (env : Env) (b : Backend) (load gc ap : Prog) (c : B
     rw [hf]; apply closeStep_noChange; rw [hg.2.1]; exact htr
   · apply exit_one f
     · rw [hfs]; exact hg.1
-    · intro m; rw [hfs]; exact hg.2.2 m
+    · exact notPanicked_of_status hfs hg.2.2
 
 /-- `drc FILE` / `do-approve approve` = ApproveOrCompare with `isCompare = false`. -/
 theorem runMain_approve (b : Backend) (env : Env) (h : env.cfg.isCompare = false) :
     runMain b env = closeStep (closeOut b) (exec env (approveP b env.cfg) {}) := by
-  simp [runMain, run, approveOrCompareP, exec, h]
+  simp [runMain, run, approveOrCompareP, exec, Pred.eval, penv, h]
 
 theorem runMain_compare (b : Backend) (env : Env) (h : env.cfg.isCompare = true) :
     runMain b env = closeStep (closeOut b) (exec env (compareP b env.cfg) {}) := by
-  simp [runMain, run, approveOrCompareP, exec, h]
+  simp [runMain, run, approveOrCompareP, exec, Pred.eval, penv, h]
 
 /-! ## wrong hostname -/
 
@@ -146,58 +146,79 @@ theorem sendStep_nr_status (env : Env) (o : Out) (fm : FaultMode) (st : St)
     (h : st.status.isRunning = false) : (sendStep env o fm st).status.isRunning = false := by
   rw [sendStep_nr env o fm st h]; exact h
 
-/-- `send query ; if name != f(out) { Abort }` never lets a device through that does not report
-the expected name. -/
-theorem nameCheck_blocks (env : Env) (prim arg lbl ik it : String) (q : Out) (f : String → List Char)
-    (h : ∀ hist s, env.dev hist q = .text s → (f s == env.cfg.name.toList) = false) (st : St) :
-    (exec env (.send prim arg q .abort ;; .check lbl ik it (nameCheck f)) st).status.isRunning = false := by
-  simp only [exec]
+/-- `out := GetCmdOutput(query); out = TrimSuffix(out, "\n"); if name != out { Abort }` never
+lets a device through that does not report the expected name. -/
+theorem asa_nameCheck_blocks (env : Env) (h : WrongHost .asa [env.cfg.name] env.dev) (st : St) :
+    (exec env asaCheckDeviceName st).status.isRunning = false := by
+  simp only [asaCheckDeviceName, outDecl, nameCheck, exec_seq, exec_send]
   cases hr : st.status.isRunning with
-  | false => simp [sendStep, hr]
+  | false =>
+    rw [sendStep_nr env _ _ st hr]
+    exact exec_nr_status env _ _ (exec_nr_status env _ _ (exec_nr_status env _ _ hr))
   | true =>
     have hs : st.status = .running := Status.isRunning_iff.mp hr
-    simp only [sendStep, hr, if_true]
-    cases hd : env.dev st.trace q with
-    | fault w => simp [faultStatus]
-    | text s =>
-      have := h st.trace s hd
-      simp [hs, nameCheck, this]
-    | ha a b c => simp [hs, nameCheck]
-    | conf a b => simp [hs, nameCheck]
-    | ids l => simp [hs, nameCheck]
+    rw [sendStep_running env _ _ st hs]
+    have hw := h _ rfl st.trace env.cfg.name (by simp)
+    cases hd : env.dev st.trace (.lit "show hostname") with
+    | fault w => simp [faultStatus, exec, Pred.eval, penv]
+    | text s => simp [hostIs, hd, replyText] at hw; simp [exec, Pred.eval, penv, hs, Pred.eval, TExp.eval, penv]; rw [if_neg (fun e => hw e.symm)]; rfl
+    | ha a b c => simp [hostIs, hd, replyText] at hw; simp [exec, Pred.eval, penv, hs, Pred.eval, TExp.eval, penv]; rw [if_neg (fun e => hw e.symm)]; rfl
+    | conf a b => simp [hostIs, hd, replyText] at hw; simp [exec, Pred.eval, penv, hs, Pred.eval, TExp.eval, penv]; rw [if_neg (fun e => hw e.symm)]; rfl
+    | page a b => simp [hostIs, hd, replyText] at hw; simp [exec, Pred.eval, penv, hs, Pred.eval, TExp.eval, penv]; rw [if_neg (fun e => hw e.symm)]; rfl
+
+theorem linux_nameCheck_blocks (env : Env) (h : WrongHost .linux [env.cfg.name] env.dev) (st : St) :
+    (exec env linuxCheckDeviceName st).status.isRunning = false := by
+  simp only [linuxCheckDeviceName, outDecl, nameCheck, exec_seq, exec_send]
+  cases hr : st.status.isRunning with
+  | false =>
+    rw [sendStep_nr env _ _ st hr]
+    exact exec_nr_status env _ _ (exec_nr_status env _ _ (exec_nr_status env _ _ hr))
+  | true =>
+    have hs : st.status = .running := Status.isRunning_iff.mp hr
+    rw [sendStep_running env _ _ st hs]
+    have hw := h _ rfl st.trace env.cfg.name (by simp)
+    cases hd : env.dev st.trace (.lit "hostname -s") with
+    | fault w => simp [faultStatus, exec, Pred.eval, penv]
+    | text s => simp [hostIs, hd, replyText] at hw; simp [exec, Pred.eval, penv, hs, Pred.eval, TExp.eval, penv]; rw [if_neg (fun e => hw e.symm)]; rfl
+    | ha a b c => simp [hostIs, hd, replyText] at hw; simp [exec, Pred.eval, penv, hs, Pred.eval, TExp.eval, penv]; rw [if_neg (fun e => hw e.symm)]; rfl
+    | conf a b => simp [hostIs, hd, replyText] at hw; simp [exec, Pred.eval, penv, hs, Pred.eval, TExp.eval, penv]; rw [if_neg (fun e => hw e.symm)]; rfl
+    | page a b => simp [hostIs, hd, replyText] at hw; simp [exec, Pred.eval, penv, hs, Pred.eval, TExp.eval, penv]; rw [if_neg (fun e => hw e.symm)]; rfl
+
+theorem ios_nameCheck_blocks (env : Env) (h : WrongHost .ios [env.cfg.name] env.dev) (st : St) :
+    (exec env iosCheckDeviceName st).status.isRunning = false := by
+  simp only [iosCheckDeviceName, nameCheck, exec_seq, exec_send]
+  cases hr : st.status.isRunning with
+  | false =>
+    rw [sendStep_nr env _ _ st hr]
+    exact exec_nr_status env _ _ (exec_nr_status env _ _ (exec_nr_status env _ _ hr))
+  | true =>
+    have hs : st.status = .running := Status.isRunning_iff.mp hr
+    rw [sendStep_running env _ _ st hs]
+    have hw := h _ rfl st.trace env.cfg.name (by simp)
+    cases hd : env.dev st.trace (.lit "") with
+    | fault w => simp [faultStatus, exec, Pred.eval, penv]
+    | text s => simp [hostIs, hd, replyText] at hw; simp [exec, Pred.eval, penv, hs, Pred.eval, TExp.eval, penv]; rw [if_neg (fun e => hw e.symm)]; rfl
+    | ha a b c => simp [hostIs, hd, replyText] at hw; simp [exec, Pred.eval, penv, hs, Pred.eval, TExp.eval, penv]; rw [if_neg (fun e => hw e.symm)]; rfl
+    | conf a b => simp [hostIs, hd, replyText] at hw; simp [exec, Pred.eval, penv, hs, Pred.eval, TExp.eval, penv]; rw [if_neg (fun e => hw e.symm)]; rfl
+    | page a b => simp [hostIs, hd, replyText] at hw; simp [exec, Pred.eval, penv, hs, Pred.eval, TExp.eval, penv]; rw [if_neg (fun e => hw e.symm)]; rfl
 
 theorem asa_host_blocks (env : Env) (h : WrongHost .asa [env.cfg.name] env.dev) (gc : Prog) :
     (exec env gc (exec env asaLoadDevice {})).status.isRunning = false := by
-  have hb : ∀ st, (exec env asaCheckDeviceName st).status.isRunning = false := by
-    intro st
-    apply nameCheck_blocks
-    intro hist s hd
-    have := h _ rfl hist env.cfg.name (by simp)
-    simpa [hostIs, hd] using this
-  simp only [asaLoadDevice, asaPostLogin, exec]
-  repeat (first | exact hb _ | apply exec_nr_status | apply sendStep_nr_status)
+  have hb := asa_nameCheck_blocks env h
+  simp only [asaLoadDevice, asaPostLogin, outDecl, exec_seq, exec_call, exec_note, exec_send]
+  repeat (first | with_reducible exact hb _ | with_reducible apply exec_nr_status | with_reducible apply sendStep_nr_status)
 
 theorem ios_host_blocks (env : Env) (h : WrongHost .ios [env.cfg.name] env.dev) (gc : Prog) :
     (exec env gc (exec env iosLoadDevice {})).status.isRunning = false := by
-  have hb : ∀ st, (exec env iosCheckDeviceName st).status.isRunning = false := by
-    intro st
-    apply nameCheck_blocks
-    intro hist s hd
-    have := h _ rfl hist env.cfg.name (by simp)
-    simpa [hostIs, hd] using this
-  simp only [iosLoadDevice, iosPostLogin, exec]
-  repeat (first | exact hb _ | apply exec_nr_status | apply sendStep_nr_status)
+  have hb := ios_nameCheck_blocks env h
+  simp only [iosLoadDevice, iosPostLogin, outDecl, exec_seq, exec_call, exec_note, exec_send]
+  repeat (first | with_reducible exact hb _ | with_reducible apply exec_nr_status | with_reducible apply sendStep_nr_status)
 
 theorem linux_host_blocks (env : Env) (h : WrongHost .linux [env.cfg.name] env.dev) (cb gc : Prog) :
     (exec env gc (exec env (linuxLoadDeviceWith cb) {})).status.isRunning = false := by
-  have hb : ∀ st, (exec env linuxCheckDeviceName st).status.isRunning = false := by
-    intro st
-    apply nameCheck_blocks
-    intro hist s hd
-    have := h _ rfl hist env.cfg.name (by simp)
-    simpa [hostIs, hd] using this
-  simp only [linuxLoadDeviceWith, linuxPreBanner, linuxPostBanner, exec]
-  repeat (first | exact hb _ | apply exec_nr_status | apply sendStep_nr_status)
+  have hb := linux_nameCheck_blocks env h
+  simp only [linuxLoadDeviceWith, linuxPreBanner, linuxPostBanner, exec_seq, exec_call, exec_note]
+  repeat (first | with_reducible exact hb _ | with_reducible apply exec_nr_status | with_reducible apply sendStep_nr_status)
 
 /-! ### PAN-OS: the name that logged in is one of the name list -/
 
@@ -219,11 +240,11 @@ theorem tryNames_devName (env : Env) (names : List String) :
   induction names with
   | nil =>
     intro st h
-    simp only [tryNames, exec] at h
-    split at h <;> simp_all
+    simp only [tryNames, exec, Pred.eval, Bool.and_true] at h
+    cases hr : st.status.isRunning <;> simp [hr] at h
   | cons n ns ih =>
     intro st h
-    simp only [tryNames, exec] at h ⊢
+    simp only [tryNames, exec, Pred.eval] at h ⊢
     split
     · rename_i hr
       simp only [hr, if_true] at h
@@ -259,15 +280,16 @@ theorem panLoadSuffix_blocks (env : Env) (h : WrongHost .panos env.cfg.names env
     have hmem := hn hr
     rw [sendStep_running env _ _ st hs]
     cases hd : env.dev st.trace panConf with
-    | fault w => simp [faultStatus, exec]
-    | text s => simp [exec, hs]
-    | ha a b c => simp [exec, hs]
-    | ids l => simp [exec, hs]
+    | fault w => simp [faultStatus, exec, Pred.eval, penv]
+    | text s => simp [exec, Pred.eval, penv, hs]
+    | ha a b c => simp [exec, Pred.eval, penv, hs]
+    | page l c => simp [exec, Pred.eval, penv, hs]
     | conf hname vs =>
       have := h _ rfl st.trace st.devName hmem
       simp only [panConf] at hd
       simp only [hostIs, hd] at this
-      simp [exec, hs, this]
+      have hne : hname ≠ st.devName := by simpa using this
+      simp [exec, Pred.eval, penv, hs, hne]
 
 theorem panos_host_blocks (env : Env) (h : WrongHost .panos env.cfg.names env.dev) (gc : Prog) :
     (exec env gc (exec env (panLoadDevice env.cfg) {})).status.isRunning = false := by
@@ -311,13 +333,13 @@ theorem panLoginBody_blocks (env : Env) (h : HaPassive env.dev) (n : String) (st
     simp only [panHa]
     cases hd : env.dev x.trace
         (.lit "type=op&cmd=<show><high-availability><state/></high-availability></show>") with
-    | fault w => simp [faultStatus, exec, hs, haOK]
-    | text s => simp [exec, hs, haOK]
-    | conf a b => simp [exec, hs, haOK]
-    | ids l => simp [exec, hs, haOK]
+    | fault w => simp [faultStatus, exec, Pred.eval, penv, hs, haOK]
+    | text s => simp [exec, Pred.eval, penv, hs, haOK]
+    | conf a b => simp [exec, Pred.eval, penv, hs, haOK]
+    | page l c => simp [exec, Pred.eval, penv, hs, haOK]
     | ha a b c =>
       rw [hd] at hp
-      simp [exec, hs, hp]
+      simp [exec, Pred.eval, penv, hs, hp]
 
 theorem tryNames_blocks (env : Env) (body : String → Prog)
     (hb : ∀ n st, (exec env (body n) st).status.isRunning = false) (names : List String) :
@@ -325,11 +347,11 @@ theorem tryNames_blocks (env : Env) (body : String → Prog)
   induction names with
   | nil =>
     intro st
-    simp only [tryNames, exec]
-    split <;> simp_all
+    simp only [tryNames, exec, Pred.eval, Bool.and_true]
+    cases hr : st.status.isRunning <;> simp [hr]
   | cons n ns ih =>
     intro st
-    simp only [tryNames, exec]
+    simp only [tryNames, exec, Pred.eval]
     split
     · split
       · exact ih _
@@ -376,6 +398,9 @@ theorem bannerInv_step (env : Env) : StepInv env (BannerInv env) where
   errU := fun _ _ h => h
   warn := fun _ _ h => h
   retry := fun _ _ h => h
+  out := fun _ _ h => h
+  lines := fun _ _ h => h
+  cursor := fun _ _ h => h
 
 theorem bannerInv_init (env : Env) : BannerInv env {} := by
   refine ⟨?_, ?_⟩
@@ -383,17 +408,18 @@ theorem bannerInv_init (env : Env) : BannerInv env {} := by
   · intro s hs; cases hs
 
 /-- ASA / IOS: after `LoginEnable` with a device that never shows the marker, `errUnmanaged`
-is set. -/
-theorem ciscoCheckBanner_sets (env : Env) (m : List String → Bool) (hb : env.cfg.banner = some m)
-    (hm : MarkerNever env.dev m) (st : St) (hi : BannerInv env st)
+is set: the regexp is searched in the concatenation of the collected outputs. -/
+theorem ciscoCheckBanner_sets (env : Env) (r : Rx) (hb : env.cfg.banner = some r)
+    (hm : MarkerNever env.dev r) (st : St) (hi : BannerInv env st)
     (hr : (exec env ciscoCheckBanner st).status.isRunning = true) :
     (exec env ciscoCheckBanner st).errU = [missingBanner] := by
   have hrun : st.status.isRunning = true := running_before env _ st hr
-  have hfalse : m st.banner = false := hm st.banner hi.1
-  simp [ciscoCheckBanner, exec, hrun, hb, hfalse]
+  have hfalse : r.search (String.join st.banner).toList = false := hm st.banner hi.1
+  have hfalse' : r.search (List.flatMap String.toList st.banner) = false := by simpa using hfalse
+  simp [ciscoCheckBanner, exec, hrun, hb, hfalse', Pred.eval, TExp.eval, penv]
 
-theorem cisco_marker_shut (env : Env) (m : List String → Bool) (hb : env.cfg.banner = some m)
-    (hm : MarkerNever env.dev m) (post gc : Prog) (hpost : noRecord post = true)
+theorem cisco_marker_shut (env : Env) (r : Rx) (hb : env.cfg.banner = some r)
+    (hm : MarkerNever env.dev r) (post gc : Prog) (hpost : noRecord post = true)
     (hgc : noRecord gc = true) :
     let s := exec env gc (exec env (ciscoPreLogin ;; .call "LoginEnable" ciscoLoginEnable ;; post) {})
     s.status.isRunning = true → s.errU ≠ [] := by
@@ -405,7 +431,7 @@ theorem cisco_marker_shut (env : Env) (m : List String → Bool) (hb : env.cfg.b
   have h3 := running_before env _ _ (running_before env _ _ hr)
   have hinv : BannerInv env (exec env ciscoLoginPre (exec env ciscoPreLogin {})) :=
     exec_inv env _ (bannerInv_step env) _ _ (exec_inv env _ (bannerInv_step env) _ _ (bannerInv_init env))
-  rw [exec_errU env gc hgc, exec_errU env post hpost, ciscoCheckBanner_sets env m hb hm _ hinv h3]
+  rw [exec_errU env gc hgc, exec_errU env post hpost, ciscoCheckBanner_sets env r hb hm _ hinv h3]
   simp
 
 theorem noRecord_asaPost : noRecord asaPostLogin = true := by decide
@@ -424,25 +450,27 @@ theorem panLoadSuffix_reply (env : Env) (st : St)
     exec_send] at hr ⊢
   rw [sendStep_running env _ _ st hs] at hr ⊢
   cases hd : env.dev st.trace panConf with
-  | fault w => simp [hd, faultStatus, exec] at hr
-  | text s => simp [hd, hs, exec] at hr
-  | ha a b c => simp [hd, hs, exec] at hr
-  | ids l => simp [hd, hs, exec] at hr
+  | fault w => simp [hd, faultStatus, exec, Pred.eval, penv] at hr
+  | text s => simp [hd, hs, exec, Pred.eval, penv] at hr
+  | ha a b c => simp [hd, hs, exec, Pred.eval, penv] at hr
+  | page l c => simp [hd, hs, exec, Pred.eval, penv] at hr
   | conf hname vs =>
     refine ⟨st.trace, hname, vs, hd, ?_⟩
     simp only [hd] at hr ⊢
     by_cases hc : hname = st.devName
-    · simp [hc, exec, hs]
-    · simp [hc, exec, hs] at hr
+    · simp [hc, exec, hs, Pred.eval, penv]
+    · simp [hc, exec, hs, Pred.eval, penv] at hr
+
+theorem panMarked_eq (dn : String) : panMarked dn = vsysMarked dn := rfl
 
 theorem panUnmarked_ne (cfg : Cfg) (vs : List (String × String))
-    (h : ∃ v ∈ vs, v.1 ∈ cfg.targetVsys ∧ cfg.isMarked v.2 = false) : panUnmarked cfg vs ≠ [] := by
+    (h : ∃ v ∈ vs, v.1 ∈ cfg.targetVsys ∧ vsysMarked v.2 = false) : panUnmarked cfg vs ≠ [] := by
   obtain ⟨v, hv, ht, hm⟩ := h
   unfold panUnmarked
   intro he
-  have : v ∈ vs.filter (fun v => cfg.targetVsys.contains v.1 && !cfg.isMarked v.2) := by
-    simp [List.mem_filter, hv, ht, hm]
-  have hne : vs.filter (fun v => cfg.targetVsys.contains v.1 && !cfg.isMarked v.2) ≠ [] := by
+  have : v ∈ vs.filter (fun v => cfg.targetVsys.contains v.1 && !panMarked v.2) := by
+    simp [List.mem_filter, hv, ht, panMarked_eq, hm]
+  have hne : vs.filter (fun v => cfg.targetVsys.contains v.1 && !panMarked v.2) ≠ [] := by
     intro h0; rw [h0] at this; cases this
   simp at he
   exact hne (by simpa using he)
@@ -460,11 +488,22 @@ theorem panos_marker_shut (env : Env) (h : PanNoMarker env.cfg env.dev) :
   obtain ⟨hist, hn, vs, hdev, hrep⟩ := panLoadSuffix_reply env x h1
   have hne := panUnmarked_ne env.cfg vs (h hist hn vs hdev)
   generalize exec env panLoadSuffix x = y at hr h1 hrep ⊢
-  simp only [panGetChanges, panProcessVsysPairs, panCheckUnmanaged, exec, h1, hrep, if_true] at hr ⊢
-  cases hl : panUnmarked env.cfg vs with
-  | nil => exact absurd hl hne
-  | cons a l =>
-    simp only [hl] at hr ⊢
-    split <;> simp
+  have hne' : (panUnmarked env.cfg vs).isEmpty = false := by
+    cases hl : panUnmarked env.cfg vs with
+    | nil => exact absurd hl hne
+    | cons a l => rfl
+  simp only [panGetChanges, panProcessVsysPairs, panCheckUnmanaged, exec_seq, exec_call, exec_note,
+    exec_defn] at hr ⊢
+  -- the record step appends a non-empty list; the check after it does not touch errU
+  have hrec : (exec env (Prog.record
+      (.opaque "!strings.Contains(name, \"netspoc\")" fun cfg r _ => !(panUnmarkedOf cfg r).isEmpty)
+      "s.errUnmanaged = append(s.errUnmanaged, fmt.Errorf(\"Missing NetSPoC in name of %s\", v.Name))"
+      .append panUnmarkedOf) y).errU = y.errU ++ panUnmarked env.cfg vs := by
+    simp [exec, h1, Pred.eval, penv, hrep, panUnmarkedOf, hne']
+  intro hnil
+  rw [exec_errU env _ (by rfl)] at hnil
+  rw [hrec] at hnil
+  have : panUnmarked env.cfg vs = [] := (List.append_eq_nil_iff.mp hnil).2
+  exact hne this
 
 end NA.Gate
